@@ -443,7 +443,8 @@ class SqlImpl(TableImpl):
                 query.where.extend(nd.predicates)
 
         elif isinstance(nd, verbs.Arrange):
-            query.order_by = nd.order_by + query.order_by
+            # an integer literal in ORDER BY would be read as a column position; constants do not order anything
+            query.order_by = [ord for ord in nd.order_by if not types.is_const(ord.order_by.dtype())] + query.order_by
 
         elif isinstance(nd, verbs.Summarize):
             sqa_expr |= {
